@@ -1,23 +1,24 @@
 #!/bin/bash
 # usage: try_patch.sh <patch.diff | REV:<commit>> <tier> <ID>...
-# applies a change to /repo's working tree, runs the given checks, and always reverts.
+# Evaluates a change WITHOUT touching /repo: a scratch copy of /repo's committed tree
+# gets the change, the given checks run against that copy (VERIF_ALT_REPO) with a
+# private evidence directory, and the copy is removed. Safe to run in parallel with
+# other checks.
 set -u
 what=$1; tier=$2; shift 2
-cd /repo || exit 2
-if [ -n "$(git status --porcelain)" ]; then echo "/repo is dirty"; exit 2; fi
-# evidence files describe runs on the unchanged tree: keep the committed ones
-evbak=$(mktemp -d)
-cp -a /verif/evidence/. "$evbak"/ 2>/dev/null
-restore() { git -C /repo checkout -q HEAD -- . ; git -C /repo clean -fdq; cp -a "$evbak"/. /verif/evidence/ 2>/dev/null; rm -rf "$evbak"; }
-trap restore EXIT
+alt=$(mktemp -d /tmp/altrepo.XXXXXX)
+ev=$(mktemp -d /tmp/altev.XXXXXX)
+cleanup() { rm -rf "$alt" "$ev"; }
+trap cleanup EXIT
+git -C /repo archive HEAD | tar -x -C "$alt" || exit 2
 if [[ "$what" == REV:* ]]; then
-  git checkout -q "${what#REV:}" -- . || exit 2
+  rm -rf "$alt"/* ; git -C /repo archive "${what#REV:}" | tar -x -C "$alt" || exit 2
 else
-  git apply "$what" || { echo "patch does not apply"; exit 2; }
+  (cd "$alt" && git init -q . && git apply "$what") || { echo "patch does not apply"; exit 2; }
 fi
 cd /verif
 for id in "$@"; do
-  out=$(./check "$id" --tier "$tier" 2>&1); rc=$?
+  out=$(VERIF_ALT_REPO="$alt" VERIF_EVIDENCE_DIR="$ev" ./check "$id" --tier "$tier" 2>&1); rc=$?
   echo "== $id rc=$rc :: $(echo "$out" | grep -E 'VIOLATION|INCONCLUSIVE|OK property|BUILD FAILED' | head -3 | tr '\n' ' ')"
   echo "$out" | grep -B1 VIOLATION | grep -v VIOLATION | head -2 | cut -c1-400
 done
